@@ -19,7 +19,15 @@
  *  restart / restart_drained   "a later re-initialisation of the logging system is safe": after stop, qb_log_thread_start()
  *           starts a logging thread again with a live lock  [isolated: wthread_active / logt_wthread_lock are left set --
  *           genuine defect #18] */
+#ifdef V_RUNNING
+static void verif_stop_sem_post_hook(void);
+#define VERIF_SEM_POST_HOOK verif_stop_sem_post_hook
+#endif
 #include "thread_common.h"
+#ifdef V_RUNNING
+static int verif_exit_flag_at_post = -1, verif_lock_depth_at_post = -1;
+static void verif_stop_sem_post_hook(void) { verif_exit_flag_at_post = wthread_should_exit; verif_lock_depth_at_post = (int)verif_lock_depth; }
+#endif
 
 void harness(void)
 {
@@ -72,6 +80,7 @@ void harness(void)
 	COVER(nd_q == 2);
 	POST(wthread_should_exit == QB_TRUE, "stop asks the logging thread to exit");
 	POST(verif_sem_posts == 1, "stop wakes the logging thread exactly once");
+	POST(verif_exit_flag_at_post == QB_TRUE, "the exit request is already visible when the logging thread is woken for it (woken first, it would find neither a record nor an exit request)");
 	POST(verif_thread_joins == 1, "stop waits for the logging thread to end");
 	POST(verif_written == 0 && verif_frees == 0, "stop itself does not touch the queue while the thread is active (the thread drains it)");
 	POST(verif_lock_depth == 0 && verif_lock_misuse == 0, "queue lock balanced");
